@@ -142,7 +142,10 @@ def _worker(args):
     class _RunTimeout(BaseException):  # not an Exception: no "except Exception" in a check may swallow the watchdog
         pass
 
+    where = {}
+
     def _on_alarm(signum, frame):
+        where["stack"] = "".join(traceback.format_stack(frame, limit=12))
         raise _RunTimeout()
 
     signal.signal(signal.SIGALRM, _on_alarm)
@@ -159,7 +162,7 @@ def _worker(args):
                 signal.alarm(0)
         except _RunTimeout:
             harness.append({"idx": idx, "seed": seed, "err": "run exceeded %d s of wall clock (step caps do not bound a call that never "
-                            "returns): reported as a harness error, not as a verdict" % per_run})
+                            "returns): reported as a harness error, not as a verdict; it was executing:\n%s" % (per_run, where.get("stack", "?"))})
             break
         except HarnessError as e:
             harness.append({"idx": idx, "seed": seed, "err": "HarnessError: %s" % e})
@@ -246,7 +249,7 @@ def run_check(prop_id, tier, base_seed, workers=None, runs=None):
     if harness:
         for h in harness[:5]:
             print("HARNESS-ERROR run=%s seed=%s\n%s" % (h["idx"], h["seed"], h["err"]))
-        return 2
+        # never exit 0 now; violations found by the runs that did finish are still reported (exit 1), otherwise exit 2
     # one representative per class key, lowest run index first (deterministic)
     viols.sort(key=lambda x: x["idx"])
     seen = {}
@@ -280,6 +283,9 @@ def run_check(prop_id, tier, base_seed, workers=None, runs=None):
                 ck, agg["viol_counts"].get(ck, 0), len(v["ops"]) - 1, len(ops) - 1, doc["detail"][:300]))
         reported.append(ck)
     wall = time.time() - t0
+    if harness:
+        print("%s %s: %d run(s) ended in a harness error (see above); violations=%d - no evidence written" % (prop_id, tier, len(harness), n_viol))
+        return 1 if exit_code == 1 else 2
     if not os.environ.get("SIMLDAP_NO_EVIDENCE"):
         write_evidence(prop, prop_id, tier, base_seed, agg, wall, n_viol, total, workers)
     warn = prop.warnings(agg, tier)
